@@ -152,35 +152,24 @@ func c01IndexWithData(w *World, r *Report, a *FsmA, id, slug string) {
 		ob.Undecided("anchor", "local-index bookkeeping key not found")
 		return
 	}
-	// the Set(sysLocalIndex, buf) with buf filled from ctx.index
+	// the Set(sysLocalIndex, buf) with buf filled from ctx.index - written out in the commit
+	// function or through a set-index helper (commitsets.go)
 	var goodSets []ssa.Instruction
-	eachInstr(fn, func(in ssa.Instruction) {
-		c := plainCall(in)
-		if c == nil || CalleeName(c) != "(*"+pebblePath+".Batch).Set" {
-			return
+	for _, s := range a.bookkeepingSets() {
+		if s.KeyG != sysLocal {
+			continue
 		}
-		if !a.isCtxFieldLoad(c.Args[0], a.BatchFld) {
-			return
+		via := ""
+		if s.Helper != nil {
+			via = " through " + FnName(s.Helper)
 		}
-		if u, ok := c.Args[1].(*ssa.UnOp); !ok || u.X != sysLocal {
-			return
+		ob.Site(s.At.Pos(), "Set(local index key, …)"+via+" in "+FnName(fn))
+		if s.Val == nil || !a.isCtxFieldLoad(s.Val, idxFld) {
+			ob.Violate("index-value@"+FnName(fn), s.At.Pos(), "the value written under the local-index key is not (on every path) filled from the context's index field")
+			continue
 		}
-		buf := c.Args[2]
-		// PutUint64(buf, ctx.index) must precede on every path
-		isFill := func(x ssa.Instruction) bool {
-			cc := plainCall(x)
-			if cc == nil || !strings.HasSuffix(CalleeName(cc), ".PutUint64") || len(cc.Args) < 3 {
-				return false
-			}
-			return cc.Args[1] == buf && a.isCtxFieldLoad(cc.Args[2], idxFld)
-		}
-		ob.Site(in.Pos(), "Set(local index key, "+Expr(buf)+") in "+FnName(fn))
-		if p := (&Walk{Barrier: isFill, Target: func(x ssa.Instruction) bool { return x == in }}).Find(entry(fn)); p != nil {
-			ob.Violate("index-value@"+FnName(fn), in.Pos(), "the value written under the local-index key is not (on every path) filled from the context's index field")
-			return
-		}
-		goodSets = append(goodSets, in)
-	})
+		goodSets = append(goodSets, s.At)
+	}
 	isGood := func(x ssa.Instruction) bool {
 		for _, g := range goodSets {
 			if g == x {
@@ -596,9 +585,18 @@ func c01KeySpace(w *World, r *Report, a *FsmA, id, slug string) {
 	for f := range lk {
 		reach[f] = true
 	}
+	commitHelpers := a.CommitHelpers()
+	for _, s := range a.bookkeepingSets() {
+		if s.Helper != nil && s.KeyG == nil {
+			ob.Violate("key-source@"+FnName(a.CommitFn), s.At.Pos(), "the commit function writes `"+Expr(s.Key)+"` through "+FnName(s.Helper)+": not a bookkeeping key")
+		}
+	}
 	for _, fn := range sortedFuncs(reach) {
 		if !isFsmFunc(fn) || fn == a.CommitFn {
 			continue
+		}
+		if _, isH := commitHelpers[fn]; isH {
+			continue // a set-index helper of the commit function: its key is checked at the call sites above
 		}
 		eachInstr(fn, func(in ssa.Instruction) {
 			c := callOf(in)
@@ -657,6 +655,11 @@ func c01KeySpace(w *World, r *Report, a *FsmA, id, slug string) {
 				}
 				for _, ref := range *u.Referrers() {
 					use := classifyKeyUse(ref, u)
+					if ci, isC := ref.(*ssa.Call); isC && f == a.CommitFn {
+						if kv, isH := commitHelpers[StaticCallee(&ci.Call)]; isH && ci.Call.Args[kv[0]] == ssa.Value(u) {
+							use = "set-key"
+						}
+					}
 					ob.Site(ref.Pos(), fmt.Sprintf("%s key %s used as %s in %s", role, g.Name(), use, FnName(f)))
 					switch use {
 					case "copy-src", "equal", "len", "debug":
@@ -929,7 +932,7 @@ func c01Bounds(w *World, r *Report, a *FsmA, id, slug string) {
 		for _, ni := range callsIn(gen, false, pebbleNewIter...) {
 			args := ni.Common().Args
 			opt := args[len(args)-1]
-			e := Expr(opt)
+			e := (&ExprCtx{Alias: paramAliases(w, gen)}).Expr(opt)
 			ob.Site(ni.Pos(), "NewIter options "+e)
 			if !strings.Contains(e, "iterOptionsForBounds(") || !strings.HasSuffix(e, "#0") {
 				ob.Violate("generator-unbounded@"+FnName(gen), ni.Pos(), "the range generator opens its iterator with options `"+e+"`, not the result of the bounds builder")
